@@ -117,6 +117,7 @@ class ECDH1PUAlgModel(JWEKeyAgreement):
             raise DecodeError("Invalid recipient")
         assert recipient_key is not None
         self.check_key_type(recipient_key)
+        self.check_key_type(sender_key)
         sender_key.check_use("enc")
 
         ephemeral_key = recipient_key.import_key(headers["epk"])
